@@ -473,6 +473,31 @@ DIRECTED = [
     ('isar: included file with a double quote in its name (D196)', '--isar',
      {'a.xml': ISAR % ('<xi:include href=\'b"c.xml\'/><struct name="A"><member name="b" type="B"/></struct>'), 'b"c.xml': ISAR % '<struct name="B"><member name="x" type="u8"/></struct>'},
      'a.xml', 'reject'),
+    ('struct named do_decode_resize (D202)', None, {'a.prophy': 'struct do_decode_resize { u8 a; };\nstruct X { do_decode_resize k; u8 f<>; };\n'}, 'a.prophy', 'reject'),
+    ('enum named to_literal (D202)', None, {'a.prophy': 'enum to_literal { TL_A = 1 };\nstruct X { to_literal k; };\n'}, 'a.prophy', 'reject'),
+    ('enumerator named heap_value (D202)', None, {'a.prophy': 'enum E { heap_value = 1, other = 2 };\nstruct X { E k; u8* o; };\n'}, 'a.prophy', 'reject'),
+    ('struct named encode_int (D202)', None, {'a.prophy': 'struct encode_int { u8 a; };\nstruct X { encode_int k; u32 v; };\n'}, 'a.prophy', 'reject'),
+    ('union arm named discriminator_a beside arm a (D202)', None, {'a.prophy': 'union U { 1: u8 a; 2: u16 discriminator_a; };\n'}, 'a.prophy', 'reject'),
+    ('union arm named discriminator (D202)', None, {'a.prophy': 'union U { 1: u8 discriminator; 2: u16 b; };\n'}, 'a.prophy', 'reject'),
+    ('field named get_byte_size (D202)', None, {'a.prophy': 'struct S { u32 get_byte_size; };\n'}, 'a.prophy', 'reject'),
+    ('isar: member x10 beside an array of size 0x10 (D202: a hexadecimal literal is not a name)', '--isar',
+     {'a.xml': ISAR % ('<struct name="S"><member name="x10" type="u8"/><member name="a" type="u8"><dimension size="0x10"/></member></struct>'
+                       '<union name="U"><member name="x1" type="u8" discriminatorValue="0x1"/><member name="b" type="u16" discriminatorValue="0x2"/></union>')},
+     'a.xml', 'usable'),
+    ('isar: union arm with a dimension (D201)', '--isar',
+     {'a.xml': ISAR % '<union name="U"><member name="a" type="u8" discriminatorValue="1"><dimension size="8"/></member><member name="b" type="u16" discriminatorValue="2"/></union>'},
+     'a.xml', 'reject'),
+    ('isar: optional union arm (D201)', '--isar',
+     {'a.xml': ISAR % '<union name="U"><member name="a" type="u8" discriminatorValue="1"/><member name="b" type="u16" discriminatorValue="2" optional="true"/></union>'},
+     'a.xml', 'reject'),
+    ('isar: size2 without size (D201)', '--isar',
+     {'a.xml': ISAR % '<struct name="S"><member name="a" type="u8"><dimension size2="3"/></member></struct>'}, 'a.xml', 'reject'),
+    ('isar: optional="yes" (D201)', '--isar', {'a.xml': ISAR % '<struct name="S"><member name="a" type="u8" optional="yes"/></struct>'}, 'a.xml', 'reject'),
+    ('isar: isVariableSize="" (D201)', '--isar',
+     {'a.xml': ISAR % '<struct name="S"><member name="a" type="u8"><dimension size="3" isVariableSize=""/></member></struct>'}, 'a.xml', 'reject'),
+    ('isar: optional="0" and isVariableSize="FALSE" (D201)', '--isar',
+     {'a.xml': ISAR % '<struct name="S"><member name="a" type="u8" optional="0"/><member name="b" type="u8"><dimension size="3" isVariableSize=" FALSE "/></member></struct>'},
+     'a.xml', 'usable'),
     ('isar: 0x..E+ inside a name (D188)', '--isar',
      {'a.xml': ISAR % '<constant name="OFFSET_0xE" value="14"/><constant name="NEXT" value="OFFSET_0xE+1"/><struct name="S"><member name="a" type="u8"><dimension size="NEXT"/></member></struct>'},
      'a.xml', 'usable'),
